@@ -128,7 +128,7 @@ func c17(args []string) error {
 				cs.seqs[a] = string(b)
 			}
 		}
-		longPair := r.Intn(24) == 0
+		longPair := r.Intn(15) == 0
 		if longPair {
 			// two long, nearly identical rows whose few differences are rare exchanges: the per-pair
 			// probabilities P_ij(d) are tiny and the maximiser is a small distance
